@@ -210,3 +210,26 @@ Definition unquote (q : str) : option str :=
               else None
   | [] => None
   end.
+
+(** [t] is exactly ONE quoted string (RFC 3501 string in its quoted form): the
+    closing quote is the last octet; what an nstring field of ENVELOPE /
+    BODYSTRUCTURE must be when it is not NIL *)
+Fixpoint qs_body (x : str) : bool :=
+  match x with
+  | [] => false
+  | c :: r =>
+      if Ascii.eqb c DQ then match r with [] => true | _ => false end
+      else if Ascii.eqb c BSL then
+        match r with
+        | d :: r' => (Ascii.eqb d DQ || Ascii.eqb d BSL) && qs_body r'
+        | [] => false
+        end
+      else if Ascii.eqb c CR || Ascii.eqb c LF then false
+      else qs_body r
+  end.
+
+Definition quoted_strict (t : str) : bool :=
+  match t with c :: r => Ascii.eqb c DQ && qs_body r | [] => false end.
+
+(** NIL or one quoted string *)
+Definition nstring_ok (t : str) : bool := str_eqb t (S_ "NIL") || quoted_strict t.
